@@ -102,7 +102,11 @@ func (r *Result) Violate(key, what string, c any) {
 	r.ViolationCount++
 	r.KeyCounts[key]++
 	if len(r.KeyGrammars[key]) < 40 {
-		r.KeyGrammars[key] = append(r.KeyGrammars[key], what)
+		w := what
+		if len(w) > 400 {
+			w = w[:400] + "…"
+		}
+		r.KeyGrammars[key] = append(r.KeyGrammars[key], w)
 	}
 	if len(r.Violations) >= maxViolationsKept {
 		// keep one per distinct key beyond the cap
@@ -114,6 +118,9 @@ func (r *Result) Violate(key, what string, c any) {
 		if len(r.Violations) >= 4*maxViolationsKept {
 			return
 		}
+	}
+	if len(what) > 900 {
+		what = what[:600] + " …[" + strconv.Itoa(len(what)-800) + " bytes elided]… " + what[len(what)-200:]
 	}
 	raw, err := json.Marshal(c)
 	if err != nil {
@@ -328,8 +335,10 @@ func CheckMain(id, tier string) int {
 		n = c.Shards(tier)
 	}
 	if n <= 0 {
-		n = runtime.NumCPU()
+		// more shards than cores, run NumCPU at a time: heavy cases cluster, small shards balance the load
+		n = 4 * runtime.NumCPU()
 	}
+	sem := make(chan struct{}, runtime.NumCPU())
 	self, _ := os.Executable()
 	merged := NewResult()
 	var mu sync.Mutex
@@ -342,6 +351,8 @@ func CheckMain(id, tier string) int {
 		wg.Add(1)
 		go func(s int) {
 			defer wg.Done()
+			sem <- struct{}{}
+			defer func() { <-sem }()
 			cmd := exec.Command(self, "worker", id, tier, strconv.Itoa(s), strconv.Itoa(n), strconv.FormatInt(seed, 10))
 			cmd.Env = append(os.Environ(), "GOMAXPROCS=1", "GOTRACEBACK=single")
 			if e := os.Getenv("VERIF_WORKER_GOMAXPROCS"); e != "" {
